@@ -5,5 +5,39 @@ NONTRIVIAL = {"C01": ["dec_ok", "key_creations"], "C02": ["faulted_ops", "key_cr
               "C04": ["key_creations", "metastore_reads"], "C05": ["revocations", "metastore_reads"], "C07": ["mutated_records"],
               "C09": ["key_creations", "faulted_ops", "metastore_reads"], "C10": ["metastore_reads", "dec_ok"], "C20": ["enc_ok", "dec_ok"]}
 
+def guard_part(ctx):
+    """the partition guard at the top of Decrypt under BOTH partition implementations (a metastore that
+    reports a region suffix selects the suffixed one, which the envelope harness does not configure):
+    foreign, crafted, empty, short and non-UTF-8 parent key ids must be errors - a panic is a C07 violation"""
+    import json, os
+    from verifpy.common import ROOT, REPO
+    from verifpy.props import C06
+    if not ctx.build_driver("partition"): return
+    ov = os.path.join(ctx.work, "overlay-partition.json")
+    with open(ov, "w") as f:
+        json.dump({"Replace": {os.path.join(REPO, "go/appencryption/zz_verif_partition_export.go"):
+                               os.path.join(ROOT, "go/overlay/partition/cachekey_export.go.src")}}, f)
+    hx = ctx.build_go("hxpartition", overlay=ov)
+    if not hx: return
+    jobs = [("guard-random", ["-mode", "random", "-cases", "25" if ctx.tier == "quick" else "400", "-ids", "20"]),
+            ("guard-exh-sfx", ["-mode", "exhaustive", "-maxlen", "3" if ctx.tier == "quick" else "4", "-names", "s,p,r", "-caches", "session", "-warm=false", "-sfx", "on"])]
+    for name, args in jobs:
+        tr = os.path.join(ctx.work, name + ".trace")
+        if not C06.harness(ctx, hx, args, tr): continue
+        lines = open(tr).read().splitlines()
+        n = 0
+        for i, l in enumerate(lines):
+            if l.endswith("=> panic") or " => panic " in l or (l.startswith("decall") and ":panic" in l):
+                n += 1
+                if n <= 2:
+                    ctx.monitor_fail.append({"what": "%s: %s: decrypting a record under a (suffixed) partition panicked" % (name, l[:200]),
+                                             "signature": "partition-guard panic", "case": C06.long_case(tr, i + 1) or l})
+        import re
+        att = sum(1 for l in lines if l.startswith(("dec ", "decx ", "decnil "))) + sum(int(x) for l in lines if l.startswith("decall") for x in re.findall(r" n=(\d+)", l))
+        ctx.cov["evaluations"] += att
+        ctx.notes["partition_guard_" + name] = "%d decrypt attempts, %d panics" % (att, n)
+
+
 def run(ctx):
-    return envelope.run(ctx, "C07", ["AsherahVerif.Props.C07"], NONTRIVIAL["C07"], modes=(('mutations',), ('allmutations', 'faults')))
+    return envelope.run(ctx, "C07", ["AsherahVerif.Props.C07"], NONTRIVIAL["C07"], modes=(('mutations',), ('allmutations', 'faults')),
+                        pre_finish=guard_part)
